@@ -15,7 +15,13 @@ class Node:
         self.specs = {s['name']: s for s in specs}
         self.drv = drv
         self.port = port
-        self.classes = [genmod.make_class(s, drv, tag) for s in specs]
+        self.classes = []
+        byname = {}
+        for s in specs:
+            # 'derive': the implementing class is a subclass of the class of an earlier module
+            cls = genmod.make_class(s, drv, tag, parent=byname.get(s.get('derive')))
+            byname[s['name']] = cls
+            self.classes.append(cls)
         self.cfg = {s['name']: genmod.module_cfg(s, c) for s, c in zip(specs, self.classes)}
         self.srv = world.make_server(name, self.cfg, node_cfg)
         self.history = []       # ground truth of the parameter cache (callbacks inside the update lock)
